@@ -56,6 +56,9 @@ CLAIMED["C06"] = ("differential testing of the parse tree against CPython's ast 
 CLAIMED["C17"] = ("property testing of the static checker: no-crash and in-process determinism on generated, mutated and corpus modules; zero-error oracle on a type-directed well-typed-by-construction generator (with annotations); soundness of committed types checked by evaluating the module and testing isinstance of the bound values",
     "Exploration: typecheck() must return and be repeatable on any parseable module, report nothing on well-typed-by-construction modules, and every definite type it assigns (function result types; module variables are Any in this implementation) must hold for the evaluated value.",
     "Well-typedness rests on the generator's type discipline (cross-checked by running the module); only expressible, Any-free types count as committed.", "DESIGN.md §5 C17")
+CLAIMED["C18"] = ("metamorphic property testing over instrumentation configurations (each ProfileMode, no-op statement hook, debug adapter with generated breakpoint subsets / conditions / stepping patterns) with a channel-driven controller thread; model of stops derived from marker statements",
+    "Exploration: every configuration must leave transcript and outcome unchanged; stops on breakpointed marker lines inside defs must match marker executions one-to-one in order, and variables shown at a stop must equal the values the marker records.",
+    "Only scalar locals are compared with the debugger's rendering; a silent evaluation thread (30 s) is inconclusive.", "DESIGN.md §5 C18")
 NOT_YET = {}
 
 def main():
